@@ -1,5 +1,5 @@
 #!/usr/bin/env python3
-"""tools/seedeval.py C03 [C04 ...] — confirm sub-agent mutants in their scratch worktree, run all checks against each,
+"""tools/seedeval.py C03 [C04 ...] [--nums 3,4] — confirm sub-agent mutants in their scratch worktree, run all checks against each,
 and file the confirmed ones under /verif/seeded/<prop>-<n>/."""
 import json, os, shutil, subprocess, sys, time
 ROOT = os.path.dirname(os.path.dirname(os.path.abspath(__file__)))
@@ -7,9 +7,15 @@ def sh(cmd, cwd=None, timeout=1200):
     r = subprocess.run(cmd, shell=True, cwd=cwd, stdout=subprocess.PIPE, stderr=subprocess.STDOUT, timeout=timeout)
     return r.returncode, r.stdout.decode(errors="replace")
 def main():
-    for prop in sys.argv[1:]:
+    nums = None
+    for i, a in enumerate(sys.argv):
+        if a == "--nums":
+            nums = set(sys.argv[i + 1].split(","))
+    for prop in [a for a in sys.argv[1:] if a.startswith("C")]:
         wt = "/tmp/mut/%s" % prop
         for n in sorted(os.listdir(os.path.join(wt, "MUTANT"))) if os.path.isdir(os.path.join(wt, "MUTANT")) else []:
+            if nums and n not in nums:
+                continue
             md = os.path.join(wt, "MUTANT", n)
             patch = os.path.join(md, "patch.diff")
             if not os.path.exists(patch):
